@@ -674,8 +674,10 @@ def multi_case(kind, ports, close_first, ending='close'):
         if r1 != 'ok' or r2 != 'ok':
             viol.append(('misrouted', 'listener 1 -> %s ; listener 2 -> %s' % (r1, r2)))
         if close_first:
-            first, second, sink2, tag2 = (l1, l2, b2, '2') if close_first == 1 else (l2, l1, b1, '1')
+            first, second, sink2, tag2 = (l1, l2, b2, '2') if close_first in (1, 3) else (l2, l1, b1, '1')
             first.close()
+            if close_first >= 3:
+                first.close()           # closing again (an explicit close inside `async with`) is a no-op
             loop.flush_all()
             r = talk(second, tag2, sink2)
             if r != 'ok':
@@ -724,7 +726,7 @@ def multi_worker(job):
 
 
 def multi_jobs():
-    return [[(kind, ports, cf, ending)] for kind in ('remote', 'local', 'mixed') for ports in ('dynamic', 'fixed') for cf in (0, 1, 2)
+    return [[(kind, ports, cf, ending)] for kind in ('remote', 'local', 'mixed') for ports in ('dynamic', 'fixed') for cf in (0, 1, 2, 3, 4)
             for ending in ('close', 'abort', 'server-close', 'cut')]
 
 
